@@ -1298,6 +1298,7 @@ func (sc *serverConn) writeFrame(wr FrameWriteRequest) {
 // serve goroutine's state about the world, updated from info in wr.
 func (sc *serverConn) startFrameWrite(wr FrameWriteRequest) {
 	sc.serveG.check()
+	verifhook.At("http2.frame.write", sc, wr)
 	if sc.writingFrame {
 		panic("internal error: can only be writing one frame at a time")
 	}
@@ -1528,6 +1529,7 @@ func (sc *serverConn) resetStream(se StreamError) {
 // processFrameFromReader returns whether the connection should be kept open.
 func (sc *serverConn) processFrameFromReader(res readFrameResult) bool {
 	sc.serveG.check()
+	verifhook.At("http2.frame.read", sc, res.f, res.err)
 	err := res.err
 	if err != nil {
 		if err == ErrFrameTooLarge {
@@ -2199,6 +2201,7 @@ func (sc *serverConn) upgradeRequest(req *http.Request) {
 	// so start the handler directly rather than going
 	// through scheduleHandler.
 	sc.curHandlers++
+	verifhook.At("http2.handler.start", sc, uint32(1), sc.curHandlers, sc.advMaxStreams)
 	go sc.runHandler(rw, req, sc.handler.ServeHTTP)
 }
 
@@ -2463,6 +2466,7 @@ func (sc *serverConn) scheduleHandler(streamID uint32, rw *responseWriter, req *
 	maxHandlers := sc.advMaxStreams
 	if sc.curHandlers < maxHandlers {
 		sc.curHandlers++
+		verifhook.At("http2.handler.start", sc, streamID, sc.curHandlers, sc.advMaxStreams)
 		go sc.runHandler(rw, req, handler)
 		return nil
 	}
@@ -2481,6 +2485,7 @@ func (sc *serverConn) scheduleHandler(streamID uint32, rw *responseWriter, req *
 func (sc *serverConn) handlerDone() {
 	sc.serveG.check()
 	sc.curHandlers--
+	verifhook.At("http2.handler.done", sc, sc.curHandlers)
 	i := 0
 	maxHandlers := sc.advMaxStreams
 	for ; i < len(sc.unstartedHandlers); i++ {
@@ -2493,6 +2498,7 @@ func (sc *serverConn) handlerDone() {
 			break
 		}
 		sc.curHandlers++
+		verifhook.At("http2.handler.start", sc, u.streamID, sc.curHandlers, sc.advMaxStreams)
 		go sc.runHandler(u.rw, u.req, u.handler)
 		sc.unstartedHandlers[i] = unstartedHandler{} // don't retain references
 	}
@@ -3340,6 +3346,7 @@ func (sc *serverConn) startPush(msg *startPushRequest) {
 		}
 
 		sc.curHandlers++
+		verifhook.At("http2.handler.push", sc, promisedID, sc.curHandlers)
 		go sc.runHandler(rw, req, sc.handler.ServeHTTP)
 		return promisedID, nil
 	}
